@@ -212,19 +212,29 @@ def r4_cancel(ctx, prog):
         for t in ctakes:
             tp = q.pt(cl, t)
             ctx.ob('C05.R4', '%s|drop-locked' % cl.name, mutex in (resc.get(tp) or ()), 'waiting tasks dropped under Data::lock', where=cl.loc(t['i']))
-        for wst in flag_w:
-            wp = q.pt(cl, wst)
-            # every path to the flag store has passed the drain loop: the condition of the outermost
-            # loop around the cabinet free dominates the store
-            ok = False
-            for t in ctakes:
-                loops = [a for a in cl.ancestors(t['i']) if cl.stmts[a]['k'] in ('ForStmt', 'WhileStmt', 'DoStmt', 'CXXForRangeStmt')]
-                if loops:
-                    outer = cl.stmts[loops[-1]]
-                    cp = cl.cfg.point_of(outer.get('cond')) if outer.get('cond') is not None else None
-                    if cp is not None and cl.cfg.dominates(cp, wp):
-                        ok = True
-            ctx.ob('C05.R4', '%s|drop-before-flag' % cl.name, ok, 'the drain loop over the waiting deque(s) dominates the stop-flag store', where=cl.loc(wst['i']))
+        # every path on which cleanup() stops the workers has passed the drain loop: the condition of the outermost loop around the
+        # cabinet free dominates the wake-up/join that follows (the order relative to the flag store inside the critical section is immaterial)
+        after = [st for st in cl.stmts if st and (q.is_call(st, fn='notify_all', cls='std::condition_variable') or q.is_call(st, fn='join', cls='std::thread'))]
+        if not after:
+            raise AnalysisBroken('%s::cleanup: neither notify_all nor join found' % cls)
+        first = sorted(after, key=lambda st: (st['l'], st['i']))[0]
+        ok = False
+        for t in ctakes:
+            loops = [a for a in cl.ancestors(t['i']) if cl.stmts[a]['k'] in ('ForStmt', 'WhileStmt', 'DoStmt', 'CXXForRangeStmt')]
+            if loops:
+                outer = cl.stmts[loops[-1]]
+                cp = cl.cfg.point_of(outer.get('cond')) if outer.get('cond') is not None else None
+                if cp is not None and cl.cfg.dominates(cp, q.pt(cl, first)):
+                    ok = True
+        ctx.ob('C05.R4', '%s|drop-before-stop' % cl.name, ok, 'the drain loop over the waiting deque(s) dominates the wake-up and join of the workers', where=cl.loc(first['i']))
+
+
+def _loop_collection(f, loop):
+    """the container an index loop runs over: X in a condition `i < X.size()`"""
+    for c in q.subtree_calls(f, loop.get('cond')) if loop.get('cond') is not None else ():
+        if c.get('fn') == 'size' and 'obj' in c:
+            return f.path(c['obj'])
+    return '?'
 
 
 def r5_join(ctx, prog):
@@ -257,13 +267,15 @@ def r5_join(ctx, prog):
                 fe = [st for st in cl.stmts if st and q.is_call(st, fn='foreach', cls='tbox::cabinet::Cabinet<std::thread>')]
                 clr = [st for st in cl.stmts if st and q.is_call(st, fn='clear', cls='tbox::cabinet::Cabinet<std::thread>')]
                 dels = [st for st in cl.stmts if st and st['k'] == 'CXXDeleteExpr' and 'thread' in st.get('cdt', '')]
-                loops = [st for st in cl.stmts if st and st['k'] == 'CXXForRangeStmt' and any(x['i'] == j['i'] for j in joins for x in [j] if j['i'] in set(cl.walk(st['body'])))]
-                ok = bool(fe and clr and dels and loops) and all(cl.cfg.dominates(q.pt(cl, x), wp) for x in fe + clr)
+                loops = [st for st in cl.stmts if st and st['k'] in ('CXXForRangeStmt', 'ForStmt', 'WhileStmt') and st.get('body') is not None and
+                         any(j['i'] in set(cl.walk(st['body'])) for j in joins) and any(d_['i'] in set(cl.walk(st['body'])) for d_ in dels)]
+                # collected under the lock, in the critical section that also raises the flag (no release in between), before the workers are woken
+                ok = bool(fe and clr and dels and loops) and all(cl.cfg.dominates(q.pt(cl, x), q.pt(cl, n)) for x in fe + clr for n in notif)
                 ctx.ob('C05.R5', '%s|collect-then-join' % cl.name, ok,
-                       'workers are collected (foreach+clear) before the flag is raised and joined+deleted in a loop over that collection',
+                       'workers are collected (foreach+clear) before they are woken, and joined+deleted in a loop over that collection',
                        where=cl.loc(w_['i']))
                 if loops:
-                    rng = cl.path(loops[0]['range'])
+                    rng = cl.path(loops[0]['range']) if loops[0]['k'] == 'CXXForRangeStmt' else _loop_collection(cl, loops[0])
                     lam_pushes = []
                     for l in prog.lambdas_of.get(cl.key, []):
                         lam_pushes += [st for st in l.stmts if st and q.is_call(st, fn='push_back') and l.path(st['obj']) == rng]
